@@ -20,6 +20,7 @@ import importlib
 import io
 import json
 import os
+import re
 import signal
 import subprocess
 import sys
@@ -274,6 +275,10 @@ def match_known(known, prop, violation):
             continue
         if sig == k.get('signature') or sig in k.get('signatures', ()):
             return k
+        # a narrow classifier over the case (used only where one root cause makes an open-ended family of inputs fail)
+        rx = k.get('signature_regex')
+        if rx and sig is not None and re.search(rx, sig):
+            return k
     return None
 
 
@@ -362,6 +367,9 @@ def main(argv):
     m = merge(dumps)
     known = load_known()
     os.makedirs(os.path.join(VERIF, 'out'), exist_ok=True)
+    import glob
+    for old_file in glob.glob(os.path.join(VERIF, 'out', prop + '-*.json')):
+        os.remove(old_file)       # replay files of earlier runs
 
     new_viol = []
     known_hits = {}
